@@ -1,6 +1,9 @@
 //! Provides functionality for handling HTTP date timestamps.
 
+#[cfg(not(humphrey_verif))]
 use std::time::SystemTime;
+#[cfg(humphrey_verif)]
+use humsim::time::SystemTime;
 
 const DAYS: [&str; 7] = ["Sun", "Mon", "Tue", "Wed", "Thu", "Fri", "Sat"];
 const MONTHS: [&str; 12] = [
